@@ -569,12 +569,23 @@ def cli_case(cli, seed, root, pid, nversions=3):
             r = cc.run_cli(cli, root)
             if r.timed_out or pr.timed_out:
                 raise Inconclusive("CLI watchdog fired")
+            phase = "first" if i == 0 else "stale"
             if not pr.ok():
+                msg = cc.ANSI.sub("", pr.stderr)
+                m = re.search(r"Unable to ([a-z ]+) at path .*?Reason: ([^\n(]*)", msg, re.S)
+                if m:
+                    # not the program: the write phase failed although the directory was fresh
+                    shape = m.group(1).strip().replace(" ", "-") + ":" + m.group(2).strip().replace(" ", "-")
+                    out["violations"].append({
+                        "rule": "write-failed", "signature": f"{pid}/write-failed/fresh/{shape}",
+                        "what": f"[cli] {profile}:{seed} version {i} ({label}): compiling into a fresh directory fails in the write phase: "
+                                + msg.strip().replace("\n", " ")[-200:],
+                        "witness": {"case": describe, "version": i, "stderr_tail": msg[-600:]}})
+                    break
                 st["versions_rejected"] += 1
                 wants.append(None)
                 continue
             wants.append(want)
-            phase = "first" if i == 0 else "stale"
             if not r.ok():
                 msg = cc.ANSI.sub("", r.stderr)
                 m = re.search(r"Unable to ([a-z ]+) at path .*?Reason: ([^\n(]*)", msg, re.S)
